@@ -51,6 +51,8 @@ def run(prop, tier):
             for h in dom:
                 r = ask("C %d %d %d %d %d %d" % (w + h))
                 n += 1
+                if not compatible(w, h):
+                    ctx.add(refusing_side=1)
                 if (r[1] == "1") != compatible(w, h):
                     ctx.violation("version_is_compatible(want=%s, have=%s) = %s, semver says %s" % (w, h, r[1], compatible(w, h)),
                                   {"engine": "E4 version_server", "query": "C", "want": w, "have": h}, {"kind": "compat"})
@@ -71,6 +73,7 @@ def run(prop, tier):
                 continue
             if want is None:
                 nmal += 1
+                ctx.add(refusing_side=1)
                 if r[1] == "0":
                     ctx.violation("version_parse accepts the malformed string %r as %s" % (s, r[2:]),
                                   {"engine": "E4 version_server", "query": "P", "string": s}, {"kind": "parse-accepts-malformed", "string": s})
@@ -168,6 +171,8 @@ def run(prop, tier):
         for j, (rc, ok, msg) in zip(jobs, pmap(one, jobs)):
             kind, model, arg, want, flags = j
             ctx.add(evaluations=1, transitions=1, traces_validated_against_impl=1)
+            if not want:
+                ctx.add(refusing_side=1)
             if rc not in (0, 1):
                 ctx.violation("ovniemu died (exit %r) for %s %s %r" % (rc, kind, model, arg),
                               {"engine": "real ovniemu", "kind": kind, "model": model, "arg": arg}, {"kind": "crash"})
@@ -183,7 +188,8 @@ def run(prop, tier):
                            "against a regular-expression reference (leading zeros not judged); ovni_version_check_str on the +-1 cube around the "
                            "library version; real ovniemu on traces requiring every version in the +-1 cube of each of the 8 models, mixed "
                            "requirements across streams in both orders, malformed strings, and subsets of required models x one probe event per model (+ -a)")
-        ctx.cov["distinct_nontrivial"] = ctx.cov["evaluations"]
+        # non-trivial = cases on the refusing side of the relation (incompatible pair, malformed string, model not required)
+        ctx.cov["distinct_nontrivial"] = ctx.cov.get("refusing_side", 0)
         return ctx.finish()
     finally:
         scratch.cleanup()
